@@ -100,7 +100,7 @@ func removeByID(existing []interface{}, ids []string) []interface{} {
 var ErrPatchFailed = errors.New("patch does not apply")
 
 // ApplyPatchModel applies one patch to doc and returns the new document. doc is not modified.
-func ApplyPatchModel(doc map[string]interface{}, p map[string]interface{}, aliasCopy bool) (map[string]interface{}, error) {
+func ApplyPatchModel(doc map[string]interface{}, p map[string]interface{}, q Quirks) (map[string]interface{}, error) {
 	action, _ := p["action"].(string)
 	vk, ok := patchValueKey[action]
 	if !ok {
@@ -166,7 +166,7 @@ func ApplyPatchModel(doc map[string]interface{}, p map[string]interface{}, alias
 		if !ok {
 			return nil, fmt.Errorf("%w: patches is not a list", ErrPatchFailed)
 		}
-		res, err := ApplyRFC6902(out, ops, aliasCopy)
+		res, err := ApplyRFC6902(out, ops, q)
 		if err != nil {
 			if IsCycleErr(err) {
 				return nil, err
@@ -183,14 +183,14 @@ func ApplyPatchModel(doc map[string]interface{}, p map[string]interface{}, alias
 }
 
 // ApplyPatchesModel is the left fold of ApplyPatchModel. On failure it returns (nil, err).
-func ApplyPatchesModel(doc map[string]interface{}, patches []interface{}, aliasCopy bool) (map[string]interface{}, error) {
+func ApplyPatchesModel(doc map[string]interface{}, patches []interface{}, q Quirks) (map[string]interface{}, error) {
 	cur := DeepCopy(doc).(map[string]interface{})
 	for i, raw := range patches {
 		p, ok := raw.(map[string]interface{})
 		if !ok {
 			return nil, fmt.Errorf("%w: patch %d is not an object", ErrPatchFailed, i)
 		}
-		nx, err := ApplyPatchModel(cur, p, aliasCopy)
+		nx, err := ApplyPatchModel(cur, p, q)
 		if err != nil {
 			return nil, fmt.Errorf("patch %d: %w", i, err)
 		}
